@@ -470,7 +470,7 @@ func verifExpectOneOf(out string, id, class string, row int, alts []string) {
 
 var verifInferNames = []string{"literal-kind", "reassignment", "array-literal", "array-index", "hash-literal-lookup", "push-growth", "shovel-growth",
 	"optional-unify-first", "unify-shift", "self-flatten", "keyvaluearray-values", "self-dup", "copy-then-reassign", "chain-flatten-first",
-	"array-of-same", "union-return", "hash-store-then-lookup", "union-return-delete", "receiver-after-first", "argument-return"}
+	"array-of-same", "union-return", "hash-store-then-lookup", "union-return-delete", "receiver-after-first", "argument-return", "union-return-delete-two-values", "union-return-shift-unify"}
 
 // VerifInfer: straight-line skeletons probed with dbtp; the expected type is computed from
 // the kind variables by the reference model of the property statement.
@@ -571,6 +571,14 @@ func VerifInfer(n int) {
 		s = verifInstallSym("a")
 		src = "x = p(Sym.a)\ndbtp x\n"
 		probes = []probe{{2, one(&s.ka)}}
+	case 20:
+		s = verifInstallSym("a", "b")
+		src = "h = {k: Sym.a, j: Sym.b}\nv = h.delete(:k)\ndbtp v\n"
+		probes = []probe{{3, uniNil}}
+	case 21:
+		s = verifInstallSym("a", "b")
+		src = "a = [Sym.a, Sym.b]\nb = a.pop\ndbtp b\n"
+		probes = []probe{{3, uniNil}}
 	}
 	verifapi.Witness("src", src)
 	verifapi.WitnessList("Sym.a", verifKN(s.ka))
@@ -886,4 +894,96 @@ func VerifKwOrder(n int) {
 	verifapi.Reach("ran")
 	name := []string{"user-defined-method", "configured-method"}[target] + "/" + []string{"all-keywords-given", "required-keyword-missing", "undeclared-keyword", "defaulted-keyword-omitted"}[shape]
 	verifExpectShift("C14-order", "C14/output-depends-on-keyword-order/"+name, a, b, outA, outB, 1000, 0)
+}
+
+// ---- C15: user method parameter / return inference ----
+
+func verifLineCovers(line string, ks []int) bool {
+	if line == "untyped" {
+		return true
+	}
+	for _, k := range ks {
+		if !strings.Contains(line, verifKN(k)) {
+			return false
+		}
+	}
+	return true
+}
+
+// verifExpectCovers: the type reported on row names every kind in ks (or is untyped).
+func verifExpectCovers(out, id, class string, row int, ks []int) {
+	verifapi.Witness(id+".row", verifItoa(row))
+	verifapi.WitnessList(id+".covers", base.VerifKindNames(ks)...)
+	verifapi.Classify(class)
+	verifapi.Assert(verifLineCovers(verifLine(out, row), ks), id)
+}
+
+var verifUserNames = []string{"def-before-calls", "calls-before-def", "default-parameter", "keyword-parameter", "explicit-return", "call-inside-another-method", "body-operation", "three-call-sites"}
+
+func VerifUserMethod(n int) {
+	sk := verifapi.Concrete(verifapi.Int("skeleton", 0, len(verifUserNames)-1))
+	name := verifUserNames[sk]
+	s := verifInstallSym("a", "b")
+	verifapi.WitnessList("Sym.a", verifKN(s.ka))
+	verifapi.WitnessList("Sym.b", verifKN(s.kb))
+	ab := []int{s.ka, s.kb}
+	cls := func(what string) string { return "C15/" + what + "/" + name }
+	src := ""
+	switch sk {
+	case 0:
+		src = "def f(v)\ndbtp v\nv\nend\nr1 = f(Sym.a)\nr2 = f(Sym.b)\ndbtp r1\ndbtp r2\n"
+	case 1:
+		src = "r1 = f(Sym.a)\nr2 = f(Sym.b)\ndbtp r1\ndbtp r2\ndef f(v)\ndbtp v\nv\nend\n"
+	case 2:
+		src = "def f(v = 1)\ndbtp v\nv\nend\nr1 = f()\nr2 = f(Sym.a)\ndbtp r2\n"
+	case 3:
+		src = "def f(k:)\ndbtp k\nk\nend\nr1 = f(k: Sym.a)\nr2 = f(k: Sym.b)\ndbtp r1\n"
+	case 4:
+		src = "def f(v)\nreturn 1 if v.nil?\n\"s\"\nend\nr = f(Sym.a)\ndbtp r\n"
+	case 5:
+		src = "def f(v)\ndbtp v\nv\nend\ndef g(w)\nf(w)\nend\nr1 = g(Sym.a)\nr2 = f(Sym.b)\ndbtp r1\n"
+	case 6:
+		src = "def f(v)\nv + 1\nend\nf(Sym.a)\nf(Sym.b)\n"
+	case 7:
+		src = "def f(v)\ndbtp v\nv\nend\nf(Sym.a)\nf(Sym.b)\nf(1.5)\n"
+	}
+	verifapi.Witness("src", src)
+	out := verifRun(src)
+	verifapi.Reach("ran")
+	switch sk {
+	case 0:
+		verifExpectCovers(out, "C15-param", cls("parameter-type-misses-a-call-site"), 2, ab)
+		verifExpectCovers(out, "C15-ret1", cls("call-result-misses-argument-type"), 7, []int{s.ka})
+		verifExpectCovers(out, "C15-ret2", cls("call-result-misses-argument-type"), 8, []int{s.kb})
+	case 1:
+		verifExpectCovers(out, "C15-param", cls("parameter-type-misses-a-call-site"), 6, ab)
+		verifExpectCovers(out, "C15-ret1", cls("call-result-misses-argument-type"), 3, []int{s.ka})
+		verifExpectCovers(out, "C15-ret2", cls("call-result-misses-argument-type"), 4, []int{s.kb})
+	case 2:
+		verifExpectCovers(out, "C15-param", cls("parameter-type-misses-a-call-site"), 2, []int{base.VkInt, s.ka})
+		verifExpectCovers(out, "C15-ret1", cls("call-result-misses-argument-type"), 7, []int{s.ka})
+	case 3:
+		verifExpectCovers(out, "C15-param", cls("parameter-type-misses-a-call-site"), 2, ab)
+		verifExpectCovers(out, "C15-ret1", cls("call-result-misses-argument-type"), 7, []int{s.ka})
+	case 4:
+		verifExpectCovers(out, "C15-ret1", cls("call-result-misses-a-return-value"), 6, []int{base.VkInt, base.VkString})
+	case 5:
+		verifExpectCovers(out, "C15-param", cls("parameter-type-misses-a-call-site"), 2, ab)
+		verifExpectCovers(out, "C15-ret1", cls("call-result-misses-argument-type"), 10, []int{s.ka})
+	case 6:
+		fails := func(k int) bool { return k != base.VkInt && k != base.VkFloat }
+		verifapi.Witness("C15-body.row", "2")
+		if fails(s.ka) && fails(s.kb) {
+			verifapi.Witness("C15-body.demand", "diagnostic")
+			verifapi.Classify(cls("body-operation-failing-for-every-argument-type-not-reported"))
+			verifapi.Assert(verifLine(out, 2) != "", "C15-body")
+		}
+		if !fails(s.ka) && !fails(s.kb) {
+			verifapi.Witness("C15-body.demand", "none")
+			verifapi.Classify(cls("body-operation-succeeding-for-every-argument-type-reported"))
+			verifapi.Assert(verifLine(out, 2) == "", "C15-body")
+		}
+	case 7:
+		verifExpectCovers(out, "C15-param", cls("parameter-type-misses-a-call-site"), 2, []int{s.ka, s.kb, base.VkFloat})
+	}
 }
